@@ -1,7 +1,7 @@
 import BnpVerif.Model.C08
 import BnpVerif.Gen.C08
 /-! C08 — interval-set operations equal their per-base definitions: helper lemmas and the
-property theorems (section "Property theorems" at the end; those are the audited obligations). -/
+property theorems (sections headed "Property theorems"; the audited obligations are listed in Audit/C08.lean). -/
 namespace C08
 open Base.Rle
 
@@ -1162,5 +1162,358 @@ per-base value: the precondition "each operand internally non-overlapping" is pa
 theorem countOverlap_nested_not_perbase :
     internallyDisjoint [(0, 3), (1, 2)] = false ∧
     countOverlap [(0, 3), (1, 2)] [(0, 1)] = 2 ∧ specCountOverlap [(0, 3), (1, 2)] [(0, 1)] 3 = 1 := by decide
+
+/-! ## bedgraph.get_pileup: the event algorithm equals the per-base count -/
+
+/-- dense meaning of a position-sorted event list `(position, running value)`: the value holds until the next position -/
+def stepRuns : List (Nat × Int) → List Int
+  | [] => []
+  | [_] => []
+  | x :: y :: rest => List.replicate (y.1 - x.1) x.2 ++ stepRuns (y :: rest)
+
+theorem dedupLast_ne_nil {α : Type} (x : Nat × α) (l : List (Nat × α)) : dedupLast (x :: l) ≠ [] := by
+  induction l generalizing x with
+  | nil => simp [dedupLast]
+  | cons y l ih =>
+    simp only [dedupLast]
+    split
+    · exact ih y
+    · simp
+
+theorem dedupLast_head {α : Type} (x : Nat × α) (l : List (Nat × α)) :
+    ∃ v tl, dedupLast (x :: l) = (x.1, v) :: tl := by
+  induction l generalizing x with
+  | nil => exact ⟨x.2, [], rfl⟩
+  | cons y l ih =>
+    simp only [dedupLast]
+    split
+    · rename_i h
+      obtain ⟨v, tl, hv⟩ := ih y
+      have : x.1 = y.1 := by simpa using h
+      exact ⟨v, tl, by rw [hv, this]⟩
+    · exact ⟨x.2, _, rfl⟩
+
+theorem runs_dedupLast (P : List (Nat × Int)) :
+    runs ((dedupLast P).map (·.1)) (((dedupLast P).map (·.2)).dropLast) = stepRuns P := by
+  induction P with
+  | nil => rfl
+  | cons x P ih =>
+    cases P with
+    | nil => simp [dedupLast, stepRuns, runs]
+    | cons y P =>
+      simp only [dedupLast, stepRuns]
+      split
+      · rename_i h
+        have hxy : x.1 = y.1 := by simpa using h
+        rw [ih, hxy]; simp
+      · obtain ⟨v, tl, hv⟩ := dedupLast_head y P
+        rw [hv] at ih ⊢
+        simp only [List.map_cons, List.dropLast_cons_cons, runs] at ih ⊢
+        cases tl with
+        | nil =>
+          rw [← ih]
+        | cons z tl =>
+          simp only [List.map_cons, List.dropLast_cons_cons] at ih ⊢
+          rw [← ih, runs]
+
+/-- events `(position, delta)` turned into `(position, running sum)` -/
+def evCum (acc : Int) : List (Nat × Int) → List (Nat × Int)
+  | [] => []
+  | (q, d) :: rest => (q, acc + d) :: evCum (acc + d) rest
+
+theorem zip_cumsum (L : List (Nat × Int)) : ∀ acc, (L.map (·.1)).zip (cumsum acc (L.map (·.2))) = evCum acc L := by
+  induction L with
+  | nil => intro acc; rfl
+  | cons x L ih => intro acc; obtain ⟨q, d⟩ := x; simp [cumsum, evCum, ih]
+
+/-- sum of the deltas of all events at positions ≤ p -/
+def sumLe (L : List (Nat × Int)) (p : Nat) : Int := ((L.filter (fun x => decide (x.1 ≤ p))).map (·.2)).sum
+
+def lastPos (L : List (Nat × Int)) : Nat := (L.getLast?.map (·.1)).getD 0
+
+theorem sumLe_cons (x : Nat × Int) (L : List (Nat × Int)) (p : Nat) :
+    sumLe (x :: L) p = (if x.1 ≤ p then x.2 else 0) + sumLe L p := by
+  simp only [sumLe, List.filter_cons]
+  by_cases h : x.1 ≤ p <;> simp [h]
+
+theorem sumLe_zero_of_lt (L : List (Nat × Int)) (p : Nat) (h : ∀ x ∈ L, p < x.1) : sumLe L p = 0 := by
+  induction L with
+  | nil => rfl
+  | cons x L ih =>
+    rw [sumLe_cons, if_neg (by have := h x (by simp); omega), ih (fun y hy => h y (by simp [hy]))]; rfl
+
+theorem lastPos_ge (L : List (Nat × Int)) (x : Nat × Int) (hs : (x :: L).Pairwise (fun a b => a.1 ≤ b.1)) :
+    x.1 ≤ lastPos (x :: L) := by
+  induction L generalizing x with
+  | nil => simp [lastPos]
+  | cons y L ih =>
+    have h1 : x.1 ≤ y.1 := (List.pairwise_cons.1 hs).1 y (by simp)
+    have h2 := ih y (List.pairwise_cons.1 hs).2
+    have : lastPos (x :: y :: L) = lastPos (y :: L) := by simp [lastPos]
+    omega
+
+/-- the dense meaning of the cumulated events: at base p the running value is the sum of all deltas at positions ≤ p -/
+theorem stepRuns_evCum (L : List (Nat × Int)) : ∀ (x : Nat × Int) (acc : Int), (x :: L).Pairwise (fun a b => a.1 ≤ b.1) →
+    stepRuns (evCum acc (x :: L)) =
+      (List.range' x.1 (lastPos (x :: L) - x.1)).map (fun p => acc + sumLe (x :: L) p) := by
+  induction L with
+  | nil => intro x acc _; obtain ⟨q, d⟩ := x; simp [evCum, stepRuns, lastPos]
+  | cons y L ih =>
+    intro x acc hs
+    obtain ⟨q0, d0⟩ := x
+    have hs' := (List.pairwise_cons.1 hs).2
+    have h01 : q0 ≤ y.1 := (List.pairwise_cons.1 hs).1 y (by simp)
+    have hlast : lastPos ((q0, d0) :: y :: L) = lastPos (y :: L) := by simp [lastPos]
+    have hge := lastPos_ge L y hs'
+    have ih' := ih y (acc + d0) hs'
+    obtain ⟨q1, d1⟩ := y
+    simp only [evCum, stepRuns] at ih' ⊢
+    rw [ih', hlast]
+    have hsplit : List.range' q0 (lastPos ((q1, d1) :: L) - q0) =
+        List.range' q0 (q1 - q0) ++ List.range' q1 (lastPos ((q1, d1) :: L) - q1) := by
+      have := List.range'_append_1 (s := q0) (m := q1 - q0) (n := lastPos ((q1, d1) :: L) - q1)
+      rw [show q0 + (q1 - q0) = q1 by simp only at h01; omega,
+        show q1 - q0 + (lastPos ((q1, d1) :: L) - q1) = lastPos ((q1, d1) :: L) - q0 by simp only at h01 hge; omega] at this
+      exact this.symm
+    rw [hsplit, List.map_append]
+    congr 1
+    · refine (map_range'_const _ (acc + d0) q0 (q1 - q0) (fun p h1 h2 => ?_)).symm
+      rw [sumLe_cons, if_pos (by simp only; omega)]
+      rw [sumLe_zero_of_lt _ p (fun z hz => by
+        rcases List.mem_cons.1 hz with rfl | hz
+        · simp only at h01 ⊢; omega
+        · have := (List.pairwise_cons.1 hs').1 z hz
+          simp only at this h01; omega)]
+      simp
+    · apply List.map_congr_left
+      intro p hp
+      rw [List.mem_range'_1] at hp
+      rw [sumLe_cons (q0, d0), if_pos (by simp only at h01 ⊢; omega)]
+      simp only; omega
+
+theorem insertBy_head {α : Type} (le : α → α → Bool) (a : α) (l : List α) (h : ∀ b, le a b = true) :
+    insertBy le a l = a :: l := by
+  cases l with
+  | nil => rfl
+  | cons b bs => simp [insertBy, h b]
+
+theorem perm_sum_int {l₁ l₂ : List Int} (h : l₁.Perm l₂) : l₁.sum = l₂.sum := by
+  induction h with
+  | nil => rfl
+  | cons x _ ih => simp [ih]
+  | swap x y l => simp only [List.sum_cons]; omega
+  | trans _ _ ih1 ih2 => rw [ih1, ih2]
+
+theorem sumLe_perm {L₁ L₂ : List (Nat × Int)} (h : L₁.Perm L₂) (p : Nat) : sumLe L₁ p = sumLe L₂ p :=
+  perm_sum_int ((h.filter _).map _)
+
+theorem sumLe_append (L₁ L₂ : List (Nat × Int)) (p : Nat) : sumLe (L₁ ++ L₂) p = sumLe L₁ p + sumLe L₂ p := by
+  simp [sumLe]
+
+theorem lastPos_eq_max (L : List (Nat × Int)) (m : Nat) (hs : L.Pairwise (fun a b => a.1 ≤ b.1))
+    (hle : ∀ x ∈ L, x.1 ≤ m) (hm : ∃ x ∈ L, x.1 = m) : lastPos L = m := by
+  obtain ⟨w, hw, hwm⟩ := hm
+  have hne : L ≠ [] := by intro h; simp [h] at hw
+  have h1 : L.dropLast ++ [L.getLast hne] = L := List.dropLast_concat_getLast hne
+  have hl : lastPos L = (L.getLast hne).1 := by simp [lastPos, List.getLast?_eq_some_getLast hne]
+  have hz := hle _ (List.getLast_mem hne)
+  rw [hl]
+  rw [← h1] at hs hw
+  rcases List.mem_append.1 hw with hw | hw
+  · have := (List.pairwise_append.1 hs).2.2 w hw (L.getLast hne) (by simp)
+    omega
+  · simp only [List.mem_singleton] at hw
+    rw [← hw]; exact hwm
+
+/-- the delta assigned by `np.where(args >= n + 1, -1, 1)` -/
+def wDelta (n : Nat) (a : Nat × Nat) : Int := if a.2 ≥ n + 1 then (-1 : Int) else 1
+
+theorem sumLe_zipIdx_const (n : Nat) (c : Int) (p : Nat) (l : List Nat) : ∀ k,
+    (∀ x ∈ l.zipIdx k, wDelta n x = c) →
+    sumLe ((l.zipIdx k).map (fun a => (a.1, wDelta n a))) p = c * (l.countP (fun s => decide (s ≤ p)) : Nat) := by
+  induction l with
+  | nil => intro k _; simp [sumLe]
+  | cons s l ih =>
+    intro k h
+    simp only [List.zipIdx_cons, List.map_cons]
+    rw [sumLe_cons, ih (k + 1) (fun x hx => h x (by simp [hx])), h (s, k) (by simp), List.countP_cons]
+    by_cases hs : s ≤ p
+    · simp only [hs, if_true, decide_true]
+      rw [show ((List.countP (fun s => decide (s ≤ p)) l + 1 : Nat) : Int) = (List.countP (fun s => decide (s ≤ p)) l : Int) + 1 by omega,
+        Int.mul_add, Int.mul_one, Int.add_comm]
+    · simp [hs]
+
+theorem cov_eq_counts' (I : List Iv) (p : Nat) (h : ∀ iv ∈ I, iv.1 ≤ iv.2) :
+    (I.countP (fun iv => decide (iv.1 ≤ p)) : Int) - (I.countP (fun iv => decide (iv.2 ≤ p)) : Int) = (cov I p : Int) := by
+  induction I with
+  | nil => rfl
+  | cons x I ih =>
+    have ih' := ih (fun iv hiv => h iv (by simp [hiv]))
+    have hx := h x (by simp)
+    simp only [cov] at ih' ⊢
+    simp only [List.countP_cons, inIv]
+    by_cases h1 : x.1 ≤ p <;> by_cases h2 : x.2 ≤ p <;> by_cases h3 : p < x.2 <;> simp [h1, h2, h3] <;> omega
+
+theorem cov_eq_counts (I : List Iv) (p : Nat) (h : ∀ iv ∈ I, iv.1 ≤ iv.2) :
+    ((I.map (·.1)).countP (fun s => decide (s ≤ p)) : Int) - ((I.map (·.2)).countP (fun s => decide (s ≤ p)) : Int)
+      = (cov I p : Int) := by
+  rw [← cov_eq_counts' I p h, List.countP_map, List.countP_map]
+  rfl
+
+def leP (a b : Nat × Nat) : Bool := natLe a.1 b.1
+
+theorem leP_total (a b : Nat × Nat) : leP a b = true ∨ leP b a = true := by
+  simp only [leP, natLe, decide_eq_true_eq]; omega
+
+theorem leP_trans (a b c : Nat × Nat) : leP a b = true → leP b c = true → leP a c = true := by
+  simp only [leP, natLe, decide_eq_true_eq]; omega
+
+/-- **event pileup** (`arithmetics.bedgraph.get_pileup`: sort the endpoints, ±1, cumulative sum, drop duplicate
+positions): the resulting run-length array is well formed and its dense meaning is the number of intervals
+covering each base -/
+theorem pileup_events (I : List Iv) (size : Nat) (hsz : 0 < size) (hI : ∀ iv ∈ I, iv.1 ≤ iv.2 ∧ iv.2 ≤ size) :
+    (pileupEvents I size).toDense = (specPileup I size).map Int.ofNat := by
+  -- unfold the model
+  obtain ⟨T', hT'⟩ : ∃ T', T' = (I.map (fun x : Iv => x.1) ++ I.map (fun x : Iv => x.2) ++ [size]).zipIdx 1 := ⟨_, rfl⟩
+  obtain ⟨S', hS'⟩ : ∃ S', S' = isort (fun a b => natLe a.1 b.1) T' := ⟨_, rfl⟩
+  have hsorted : isort (fun a b => natLe a.1 b.1) (([0] ++ I.map (fun x : Iv => x.1) ++ I.map (fun x : Iv => x.2) ++ [size]).zipIdx) = (0, 0) :: S' := by
+    have : ([0] ++ I.map (fun x : Iv => x.1) ++ I.map (fun x : Iv => x.2) ++ [size]).zipIdx = (0, 0) :: T' := by
+      rw [hT']; simp [List.zipIdx_cons]
+    rw [this, isort, ← hS']
+    exact insertBy_head _ _ _ (fun b => by simp [natLe])
+  obtain ⟨L, hL⟩ : ∃ L, L = ((0 : Nat), (0 : Int)) :: S'.map (fun a => (a.1, wDelta I.length a)) := ⟨_, rfl⟩
+  have hpos : ((0, 0) :: S').map (·.1) = L.map (·.1) := by rw [hL]; simp [Function.comp_def]
+  have hdel : ((((0, 0) :: S').map (fun a => if a.2 ≥ I.length + 1 then (-1 : Int) else 1)).set 0 0) = L.map (·.2) := by
+    rw [hL]; simp [Function.comp_def, wDelta]
+  have hperm : S'.Perm T' := by rw [hS']; exact isort_perm _ _
+  have hS'sorted : S'.Pairwise (fun a b => a.1 ≤ b.1) := by
+    rw [hS']
+    exact (isort_pairwise leP leP_total leP_trans T').imp (by simp [leP, natLe])
+  have hLsorted : L.Pairwise (fun a b => a.1 ≤ b.1) := by
+    rw [hL]
+    refine List.pairwise_cons.2 ⟨fun _ _ => Nat.zero_le _, ?_⟩
+    exact List.pairwise_map.2 hS'sorted
+  -- positions of the events
+  have hT'mem : ∀ x ∈ T', x.1 ≤ size := by
+    intro x hx
+    rw [hT'] at hx
+    have hx1 : x.1 ∈ (I.map (fun x : Iv => x.1) ++ I.map (fun x : Iv => x.2) ++ [size]) := by
+      have := List.mem_map_of_mem (f := Prod.fst) hx
+      rwa [List.zipIdx_map_fst] at this
+    rcases List.mem_append.1 hx1 with h | h
+    · rcases List.mem_append.1 h with h | h
+      · obtain ⟨iv, hiv, h2⟩ := List.mem_map.1 h; have := hI iv hiv; omega
+      · obtain ⟨iv, hiv, h2⟩ := List.mem_map.1 h; have := hI iv hiv; omega
+    · simp only [List.mem_singleton] at h; omega
+  have hlast : lastPos L = size := by
+    refine lastPos_eq_max L size hLsorted ?_ ?_
+    · intro x hx
+      rw [hL] at hx
+      rcases List.mem_cons.1 hx with rfl | hx
+      · exact Nat.zero_le _
+      · obtain ⟨a, ha, rfl⟩ := List.mem_map.1 hx
+        exact hT'mem a (hperm.mem_iff.1 ha)
+    · have : (size, 1 + (I.map (fun x : Iv => x.1) ++ I.map (fun x : Iv => x.2)).length) ∈ T' := by
+        rw [hT', List.zipIdx_append]; simp
+      exact ⟨_, by rw [hL]; exact List.mem_cons_of_mem _ (List.mem_map_of_mem (hperm.mem_iff.2 this)), rfl⟩
+  -- dense meaning
+  have hdense : (pileupEvents I size).toDense = (List.range' 0 (size - 0)).map (fun p => (0 : Int) + sumLe L p) := by
+    simp only [pileupEvents, Rle.toDense, natLe] at hsorted ⊢
+    rw [hsorted, hpos, hdel, runs_dedupLast, zip_cumsum]
+    rw [hL] at hLsorted hlast ⊢
+    rw [stepRuns_evCum _ _ 0 hLsorted, hlast]
+  rw [hdense, specPileup, List.map_map, List.range_eq_range', Nat.sub_zero]
+  apply List.map_congr_left
+  intro p hp
+  rw [List.mem_range'_1] at hp
+  -- the sum of the deltas at positions ≤ p
+  have h1 : sumLe L p = sumLe (T'.map (fun a => (a.1, wDelta I.length a))) p := by
+    rw [hL, sumLe_cons]
+    simp only [Nat.zero_le, if_true, Int.zero_add]
+    exact sumLe_perm (hperm.map _) p
+  have hn : (I.map (fun x : Iv => x.1)).length = I.length := by simp
+  have hn2 : (I.map (fun x : Iv => x.2)).length = I.length := by simp
+  have h2 : sumLe (T'.map (fun a => (a.1, wDelta I.length a))) p =
+      ((I.map (fun x : Iv => x.1)).countP (fun s => decide (s ≤ p)) : Int) - ((I.map (fun x : Iv => x.2)).countP (fun s => decide (s ≤ p)) : Int) := by
+    rw [hT', List.zipIdx_append, List.zipIdx_append, List.map_append, List.map_append, sumLe_append, sumLe_append]
+    rw [sumLe_zipIdx_const I.length 1 p _ 1 (fun x hx => by
+        have := (List.mem_zipIdx (x := x.1) (i := x.2) hx)
+        simp only [wDelta]; rw [if_neg (by omega)])]
+    rw [sumLe_zipIdx_const I.length (-1) p _ _ (fun x hx => by
+        have := (List.mem_zipIdx (x := x.1) (i := x.2) hx)
+        simp only [wDelta]; rw [if_pos (by omega)])]
+    have h3 : ∀ k, sumLe (List.map (fun a => (a.1, wDelta I.length a)) ([size].zipIdx k)) p = 0 := by
+      intro k
+      simp only [List.zipIdx_cons, List.zipIdx_nil, List.map_cons, List.map_nil]
+      rw [sumLe_cons, if_neg (by simp only; omega)]; rfl
+    rw [h3]; omega
+  rw [h1, h2, cov_eq_counts I p (fun iv hiv => (hI iv hiv).1)]
+  simp
+
+theorem dedupLast_sublist {α : Type} (P : List (Nat × α)) : (dedupLast P).Sublist P := by
+  induction P with
+  | nil => exact List.Sublist.slnil
+  | cons x P ih =>
+    cases P with
+    | nil => exact List.Sublist.refl _
+    | cons y P =>
+      simp only [dedupLast]
+      split
+      · exact List.Sublist.cons _ ih
+      · exact List.Sublist.cons₂ _ ih
+
+theorem dedupLast_strict {α : Type} (P : List (Nat × α)) (hs : P.Pairwise (fun a b => a.1 ≤ b.1)) :
+    ((dedupLast P).map (·.1)).Pairwise (· < ·) := by
+  induction P with
+  | nil => simp [dedupLast]
+  | cons x P ih =>
+    cases P with
+    | nil => simp [dedupLast]
+    | cons y P =>
+      have hs' := (List.pairwise_cons.1 hs).2
+      simp only [dedupLast]
+      split
+      · exact ih hs'
+      · rename_i hne
+        have hne' : x.1 ≠ y.1 := by simpa using hne
+        simp only [List.map_cons]
+        refine List.pairwise_cons.2 ⟨?_, ih hs'⟩
+        intro z hz
+        obtain ⟨w, hw, rfl⟩ := List.mem_map.1 hz
+        have hw' : w ∈ y :: P := (dedupLast_sublist (y :: P)).subset hw
+        have h1 : x.1 ≤ y.1 := (List.pairwise_cons.1 hs).1 y (by simp)
+        rcases List.mem_cons.1 hw' with rfl | hw'
+        · omega
+        · have := (List.pairwise_cons.1 hs').1 w hw'; omega
+
+/-- the run-length array built by the event pileup is well formed, so `to_array` (xor-accumulate on the 64-bit
+words, see C09) returns its dense meaning -/
+theorem pileup_events_WF (I : List Iv) (size : Nat) : (pileupEvents I size).WF := by
+  obtain ⟨T', hT'⟩ : ∃ T', T' = (I.map (fun x : Iv => x.1) ++ I.map (fun x : Iv => x.2) ++ [size]).zipIdx 1 := ⟨_, rfl⟩
+  obtain ⟨S', hS'⟩ : ∃ S', S' = isort (fun a b => natLe a.1 b.1) T' := ⟨_, rfl⟩
+  have hsorted : isort (fun a b => natLe a.1 b.1) (([0] ++ I.map (fun x : Iv => x.1) ++ I.map (fun x : Iv => x.2) ++ [size]).zipIdx) = (0, 0) :: S' := by
+    have : ([0] ++ I.map (fun x : Iv => x.1) ++ I.map (fun x : Iv => x.2) ++ [size]).zipIdx = (0, 0) :: T' := by
+      rw [hT']; simp [List.zipIdx_cons]
+    rw [this, isort, ← hS']
+    exact insertBy_head _ _ _ (fun b => by simp [natLe])
+  have hS'sorted : S'.Pairwise (fun a b => a.1 ≤ b.1) := by
+    rw [hS']
+    exact (isort_pairwise leP leP_total leP_trans T').imp (by simp [leP, natLe])
+  obtain ⟨P, hP⟩ : ∃ P, P = (((0, 0) :: S').map (·.1)).zip (cumsum 0 ((((0, 0) :: S').map
+      (fun a => if a.2 ≥ I.length + 1 then (-1 : Int) else 1)).set 0 0)) := ⟨_, rfl⟩
+  have hPs : P.Pairwise (fun a b => a.1 ≤ b.1) := by
+    rw [hP]
+    exact pairwise_zip_fst (· ≤ ·) _ _ (List.pairwise_map.2 (List.pairwise_cons.2 ⟨fun _ _ => Nat.zero_le _, hS'sorted⟩))
+  have hr : pileupEvents I size = ⟨(dedupLast P).map (·.1), ((dedupLast P).map (·.2)).dropLast⟩ := by
+    simp only [pileupEvents, natLe] at hsorted ⊢
+    rw [hsorted, ← hP]
+  obtain ⟨c0, Ptl, hPc⟩ : ∃ c0 Ptl, P = (0, c0) :: Ptl := by
+    rw [hP]; simp [cumsum]
+  obtain ⟨v, tl, hv⟩ := dedupLast_head (0, c0) Ptl
+  rw [hr]
+  refine ⟨?_, ?_, dedupLast_strict P hPs⟩
+  · simp only [List.length_map, List.length_dropLast]
+    rw [hPc, hv]; simp
+  · rw [hPc, hv]; rfl
 
 end C08
